@@ -61,7 +61,7 @@ def main():
     checks = {}
     if ok:
         # /repo must have no tracked modifications
-        rc, out = sh("git -C /repo status --porcelain | grep -v '^??' || true")
+        rc, out = sh("git -C /repo status --porcelain | grep -v '^??' | grep -v 's2/export_verif_' || true")
         if out.strip():
             print("REFUSING: /repo has tracked modifications:\n" + out); sys.exit(2)
         try:
@@ -76,7 +76,7 @@ def main():
                              "failing_kinds": sorted(set(l.split("]")[0][len("FAILING INPUT ["):] for l in out.splitlines() if l.startswith("FAILING INPUT [")))[:8],
                              "wall_s": round(time.time() - t0, 1)}
         finally:
-            sh(["git", "-C", "/repo", "checkout", "--", "."])
+            sh(["git", "-C", "/repo", "apply", "-R", os.path.join(dst, "patch.diff")])  # undo exactly this change
     meta_out = {"property": prop, "source": "independent sub-agent given only the property text (tools/mutprompt.py)",
                 "summary": meta.get("summary"), "needs": meta.get("needs"), "files_changed": meta.get("files_changed"),
                 "demo_pkg_dir": pkg, "demo_cmd": cmd, "verification": {k: v for k, v in res.items() if not k.startswith("demo_output") and k != "suite_output"},
